@@ -231,6 +231,12 @@ def _canon_req(tag):
     return tag
 
 
+def _seeds_of(tag):
+    """the seed values a provenance tag is built from"""
+    import re as _re
+    return tuple(sorted(_re.findall(r"seed(\d+)", tag)))
+
+
 def mspec(spec):
     if spec is None:
         return None
@@ -484,6 +490,12 @@ def check_scenario(ctx, c):
                 # random_sparse(dist="norm") and normal are two names of one initialiser: equal seeds may (and do) give
                 # equal draws; the property only separates different SEEDS
                 ctx.stat("pairs differing only by an initialiser alias")
+                continue
+            if tx != ty and hx == hy and _seeds_of(tx) and _seeds_of(tx) == _seeds_of(ty):
+                # the same seed values behind different HISTORIES of draws (twin generators: W drawn as `bernoulli` by one node
+                # and as `uniform` by the other consume the same number of variates, so the next request of the same kind sees
+                # the same generator state): equal bits are legitimate, the property only separates different seeds
+                ctx.stat("pairs with equal seeds, different draw histories, equal bits (neutral)")
                 continue
             if tx != ty and hx == hy and min(rx, ry) >= 8:
                 what = (f"ops {emits[x][0]} ({emits[x][2]}, array {emits[x][1]}) and {emits[y][0]} ({emits[y][2]}, array {emits[y][1]}) have different "
